@@ -256,10 +256,13 @@ class Crazyflie():
         self.state = State.INITIALIZED
         self.link_uri = link_uri
         try:
-            self.link = cflib.crtp.get_link_driver(
+            # Test the local reference: the driver can report a link error from its own
+            # thread at any time, which sets self.link to None and reports the failure itself
+            link = cflib.crtp.get_link_driver(
                 link_uri, self.link_statistics.radio_link_statistics_callback, self._link_error_cb)
+            self.link = link
 
-            if not self.link:
+            if not link:
                 message = 'No driver found or malformed URI: {}' \
                     .format(link_uri)
                 logger.warning(message)
